@@ -195,6 +195,7 @@ func TestC02(t *testing.T) {
 		}
 		V.Journal(t.Name()+"/single", c02Case{from, entry, jsonBytes(wire), expText})
 		send := func(b []byte) error { return sender.sendUDP(l.Addr, l.UDPPort, b) }
+		s.in.expect(wire)
 		if err := send(wire); err != nil {
 			V.HarnessError(rt, "send: %v", err)
 		}
@@ -305,6 +306,7 @@ func TestC02(t *testing.T) {
 				s.model.learnRequest(L, srcIP, msg)
 				hist = append(hist, fmt.Sprintf("ua%d sends %s %s via %s (rport=%v)", g.UA, p.Method, tx.ID, L, tx.Rport))
 				V.Journal(t.Name()+"/histories", hist)
+				s.in.expect(msg.Bytes())
 				if err := send(msg.Bytes()); err != nil {
 					V.HarnessError(rt, "send: %v", err)
 				}
@@ -359,6 +361,7 @@ func TestC02(t *testing.T) {
 					ep := tx.At.ep
 					send = func(b []byte) error { return ep.sendUDP(pv.Host, pv.Port, b) }
 				}
+				s.in.expect(resp)
 				if err := send(resp); err != nil {
 					V.HarnessError(rt, "send: %v", err)
 				}
